@@ -638,6 +638,21 @@ theorem C04_refines_get_frame (norm : Str → Str) (s : Store) (hd : CH) (n : Na
      | .error c => (absContainer s.db (fuel + 1) hd.id hd.code).specGetFrame norm n.key n.valid = .error c) :=
   getFrame_refines norm s hd n fuel hn
 
+/-- C04_refines, loop level, proved for create_loop (container-local form; `absLoops d cid` is exactly the loop list `abs` shows for
+    container `cid`): on success the container gains one loop — given category, given names in the given spelling and order, no
+    packet — appended; every other loop of the CIF is what it was; blocks and frames untouched.  Hypothesis beyond `Inv`:
+    `LoopNumsBelow` (loop numbers stay below next_loop_num — what tr1_unnumbered_loop guarantees; not yet part of `Inv`). -/
+theorem C04_refines_create_loop (d d' : Db) (cid : Nat) (cat : Option Str) (names : List Name) (l : LH) (h : Inv d)
+    (hb : LoopNumsBelow d cid) (he : createLoopBody cid cat names d = .ok (d', l)) :
+    absLoops d' cid = absLoops d cid ++ [{ category := cat, names := names.map (·.orig), packets := [] }] ∧
+    (∀ cid', cid' ≠ cid → absLoops d' cid' = absLoops d cid') ∧
+    d'.frames = d.frames ∧ d'.blocks = d.blocks ∧ l.cid = cid ∧ l.category = cat :=
+  createLoop_refines d d' cid cat names l h hb he
+
+/-- `absLoops` is what `abs` shows as the loops of a container -/
+theorem C04_absLoops_is_abs (d : Db) (fuel cid : Nat) (code : Str) : (absContainer d (fuel + 1) cid code).loops = absLoops d cid := by
+  simp [absContainer, Container.loops, absLoops]
+
 /-- C04_refines, block level, proved: cif_get_all_blocks reports the codes of the documented model's blocks, in created spelling -/
 theorem C04_refines_all_blocks (s : Store) :
     (allBlocks s).1 = s ∧ ∃ hs, (allBlocks s).2 = .ok hs ∧ hs.map (·.code) = specBlockCodes (abs s.db) := by
